@@ -4,8 +4,8 @@ import (
 	"bytes"
 	"fmt"
 	"io/ioutil"
-	"os"
 	"net/url"
+	"os"
 	"testing"
 
 	"github.com/henrylee2cn/erpc/v6/codec"
